@@ -76,8 +76,88 @@ func (fr *Frame) freshResults(c *ssa.CallCommon, st *State, hint string) []Val {
 	return res
 }
 
+// callSiteObligations: `call <name> requires ...` clauses of the function under
+// contract are checked at each of its own call sites of that name.
+func (fr *Frame) callSiteObligations(b *ssa.BasicBlock, c *ssa.CallCommon, st *State, reach string, pos token.Pos) {
+	if fr.parent != nil || fr.pure || fr.contract == nil || len(fr.contract.Calls) == 0 {
+		return
+	}
+	name, recvT := "", ""
+	callArgs := c.Args
+	if c.IsInvoke() {
+		name = c.Method.Name()
+		if n, ok := c.Value.Type().(*types.Named); ok {
+			recvT = n.Obj().Name()
+		}
+	} else if f, ok := c.Value.(*ssa.Function); ok {
+		name = f.Name()
+		if f.Signature.Recv() != nil && len(callArgs) > 0 {
+			if n, ok := derefNamed(f.Signature.Recv().Type()); ok {
+				recvT = n.Obj().Name()
+			}
+			callArgs = callArgs[1:] // the clause speaks about the arguments, not the receiver
+		}
+	}
+	if name == "" {
+		return
+	}
+	vc := fr.vc
+	for k, cs := range fr.contract.Calls {
+		want := cs.Name
+		if i := strings.Index(want, "."); i >= 0 {
+			if want[:i] != recvT {
+				continue
+			}
+			want = want[i+1:]
+		}
+		if want != name {
+			continue
+		}
+		if len(cs.Clause.Props) > 0 && vc.eng.curProp != "" && vc.eng.curProp != "all" {
+			found := false
+			for _, p := range cs.Clause.Props {
+				if p == vc.eng.curProp {
+					found = true
+				}
+			}
+			if !found {
+				continue
+			}
+		}
+		var args []Val
+		for _, p := range fr.fn.Params {
+			args = append(args, fr.get(p))
+		}
+		if len(cs.Args) > len(callArgs) {
+			panic(unsupported("call clause with more arguments than the call has: " + name))
+		}
+		for i := range cs.Args {
+			args = append(args, fr.get(callArgs[i]))
+		}
+		for _, lv := range cs.Vars {
+			v, ok := fr.localAtBlock(b, lv[0])
+			if !ok {
+				panic(unsupported(fmt.Sprintf("call clause of %s: cannot resolve local %q", fr.fn.Name(), lv[0])))
+			}
+			if a, isAlloc := v.(*ssa.Alloc); isAlloc {
+				pv := fr.get(a)
+				args = append(args, Val{T: ptrElem(a.Type()), S: vc.load(st, vc.locOf(pv))})
+				continue
+			}
+			args = append(args, fr.get(v))
+		}
+		g := vc.evalClause(cs.Clause, args, st, fr)
+		root := fr.oblFn()
+		ord := vc.callOrd["callreq:"+name]
+		vc.callOrd["callreq:"+name]++
+		o := vc.addObl("call-req", root, fmt.Sprintf("call-req:%s:%s#%d:%d", root, name, ord, k), reach, g, pos)
+		o.Clause = cs.Clause.Text
+	}
+}
+
 func (fr *Frame) callCommon(b *ssa.BasicBlock, v ssa.Value, c *ssa.CallCommon, st *State, reach string, pos token.Pos) *Val {
 	vc := fr.vc
+	fr.callSiteObligations(b, c, st, reach, pos)
 	if c.IsInvoke() {
 		return fr.invoke(b, c, st, reach, pos)
 	}
